@@ -191,7 +191,8 @@ def run_case(case):
                 add("fixed_render_crash", {"type": type(e).__name__}, {"fixed": fixed[:200]})
                 continue
             if not r2.templated_variants:
-                add("fixed_does_not_render", {"patch_inverted_or_spans_tag": patch_sig(lf)}, {"fixed": fixed[:200], "tmp": [v.desc()[:80] for v in r2.templater_violations][:2]})
+                wsc = any(m in text for m in ("{%-", "-%}", "{{-", "-}}", "{#-", "-#}"))
+                add("fixed_does_not_render", {"patch_inverted_or_spans_tag": patch_sig(lf), **({"whitespace_control": True} if wsc else {})}, {"fixed": fixed[:200], "tmp": [v.desc()[:80] for v in r2.templater_violations][:2]})
                 continue
             after = tags(r2.templated_variants[0])
             jj = case["rs"] != "nojj" and case["rs"] != "layout"
@@ -200,7 +201,8 @@ def run_case(case):
                 # signature: some applied patch has an inverted source slice or strictly contains a source-only slice
                 inverted = patch_sig(lf)
                 kind_d = "duplicated" if len(b) > len(a) else ("lost" if len(b) < len(a) else "changed")
-                add("tags_changed", {"kind": kind_d, "patch_inverted_or_spans_tag": inverted}, {"fixed": fixed[:200], "before": before[:6], "after": after[:6]})
+                wsc = any(m in text for m in ("{%-", "-%}", "{{-", "-}}", "{#-", "-#}"))
+                add("tags_changed", {"kind": kind_d, "patch_inverted_or_spans_tag": inverted, **({"whitespace_control": True} if wsc else {})}, {"fixed": fixed[:200], "before": before[:6], "after": after[:6]})
             if before:
                 res["nontrivial"] += 1
                 res.setdefault("sample", one)
